@@ -165,3 +165,23 @@ func VerifC16_Generate() {
 	vrt.Assert(err != nil, "C16 generate refuses to overwrite an existing file")
 	vrtBytesEqual(vrt.ReadFile(dest), img, "C16 generate leaves the existing file untouched")
 }
+
+// VerifC16_CorruptDest: a destination that exists but is not a whisper file (or cannot be
+// created) makes copy and sum-copy report an error - never a panic, never success.
+func VerifC16_CorruptDest() {
+	h := vrtCmdHeader([]string{"1s:2s,2s:4s"}, wt.Sum, 0.5)
+	now := vrtCmdInstant(h, "now")
+	vrtCmdAssumeClock(h, now)
+	vrt.SetClock(uint32(now))
+	img := vrtConcreteImage(h)
+	sp := vrt.TempFile("src/item1/a.wsp", img)
+	sbase := filepath.Dir(filepath.Dir(sp))
+	junk := vrt.Bytes("junk", []int{0, 3, 16, 28}[vrt.Choose("junkLen", 4)])
+	dp := vrt.TempFile("dst/item1/a.wsp", junk)
+	vrt.TempFile("dst/item1/sum.wsp", junk)
+	dbase := filepath.Dir(filepath.Dir(dp))
+	cmdID := []int{3, 5, 2, 6}[vrt.Choose("cmd", 4)] // copy, sum-copy, diff, sum-diff
+	vrt.Reach("pre")
+	err := vrtC16Run(cmdID, sbase, dbase, h, ArchiveIDAll, 0, "")
+	vrt.Assert(err != nil, "C16 a corrupt destination is reported as an error")
+}
